@@ -148,7 +148,9 @@ def ob_text_merge(cx):
     merger.tt = _TT()
     merger._raw_conflicts = []
     dumped = []
-    merger._dump_conflicts = lambda name, paths, parent_id, lines=None, no_base=False: dumped.append(lines) or []
+    named = []
+    merger._dump_conflicts = (lambda name, paths, parent_id, lines=None, no_base=False:
+                              (named.append((name, parent_id)), dumped.append(lines))[0] or [])
     merger.text_merge("trans-id", ("p", "p", "p"))
     out = merger.tt.created
     recorded = ("text conflict", "trans-id") in merger._raw_conflicts
@@ -163,6 +165,10 @@ def ob_text_merge(cx):
     if recorded:
         cx.require(len(dumped) == 1 and dumped[0][0] is base and dumped[0][1] is other and dumped[0][2] is this,
                    "helper files are not written from exactly the BASE, OTHER and THIS texts")
+        # the helpers sit next to the merged file under ITS name in the result (here the other side renamed p -> file), so
+        # that resolving the conflict finds and removes them
+        cx.require(named == [("file", "parent")], "helper files are named / placed after %r, the merged file is ('file', 'parent')"
+                   % (named,))
         # marker lines end with the text's own newline convention, so compare prefixes (lines are >= 2 bytes long only
         # when they are markers or the sentinel line, which is excluded/known)
         nstart = sum(1 for l in out if len(l) > 12 and cx.truth(l[:12] == b"<<<<<<< TREE"))
